@@ -153,6 +153,31 @@ CLAIMED = {
         "float round trips hold to the stated ulp bounds; the Lean runtime's libm is the executable "
         "reference).",
    technique='Lean 4 real-analysis theorems (inverse pairs, HasDerivAt) on generic map definitions also executed at Float; float-class decision table; float correspondence'),
+ 'C16': dict(
+   text="Proof (Lean 4, arbitrary linearly ordered field, all cell numbers / widths / domains / "
+        "candidate lists): model Grd of _stretch, the triple search of origin_and_widths, vector "
+        "cut, centre part, computational domain, _seasurface (brentq roots as inputs) and "
+        "good_mg_cell_nr. Theorems: a successful _stretch uses nx - remain cells (all nx with "
+        "use_up), reaches the domain on both sides, keeps origin + sum(widths) = end, all widths "
+        "positive, neighbouring widths within the factor beta whenever the centre part is and "
+        "1 <= alpha <= beta, and preserves every node of the centre part; hence a grid found by the "
+        "search has a permitted cell number, covers survey and computational domain, is bounded by "
+        "beta, keeps the provided nodes / centre / sea surface as nodes (search_post, oaw_post); the "
+        "search returns nothing iff no (nx, sa, ca) triple works (fails loudly); the vector cut "
+        "keeps every provided node inside the survey domain; computational-domain formulas for "
+        "both lambda_from_center branches (two wavelengths there and back, max_buffer cap); sea "
+        "surface is the upper node after the shift and after adoption of an exact root; permitted "
+        "cell numbers are exactly p*2^k. Tie to code: _stretch source executed on exact rationals == "
+        "model; origin_and_widths with recorded _stretch / brentq calls == model (domain, cut "
+        "vector, centre part, computational domain, nx, sa, ca, widths), sampled recorded calls == "
+        "model per call; construct_mesh == per-direction calls for every documented format; "
+        "good_mg_cell_nr on 224 triples; postconditions evaluated directly on every returned mesh.",
+   design='§4 C16',
+   note=TB % 'c16' + "Modelled not verified: scipy.optimize.brentq (root property is hypothesis "
+        "RootsExact), np.linspace / sqrt / float comparisons (cases within 1e-9 of a tie are "
+        "counted and skipped in the model comparison, never in the postcondition monitors); "
+        "estimate_gridding_opts is covered only through C14's mapping-invariance monitor.",
+   technique='Lean 4 list/ordered-field theorems (induction over widths, candidates, cell numbers) + exact-rational and recorded-call correspondence'),
  'C02': dict(
    text="Proof (Lean 4, over an arbitrary field K, all grid sizes/widths/coefficients/fields): the "
         "model Emg.amat of core.amat_x equals on every interior edge the assembled operator "
